@@ -36,9 +36,15 @@ def run_group(program, chooser, line_level=("allocate_id", "_register", "makegat
     multi.Lock = lambda: SimLock(s, "autoid")
 
     mine_started = {}
+    allgws = []
+
+    failing = set()
 
     def fake_create_io(spec, execmodel):
         s.yield_(("create_io", spec.id))
+        if s.me().name in failing:  # the process cannot be started (exec fails, connection refused ...): nothing is left behind
+            failing.discard(s.me().name)
+            raise OSError("injected: cannot start the process")
         started[0] += 1
         mine_started[s.me().name] = True
         return object()
@@ -64,8 +70,15 @@ def run_group(program, chooser, line_level=("allocate_id", "_register", "makegat
             live = [gw.id for gw in group]
             agree = True
             try:
-                for i, gw in enumerate(list(group)):
+                members = list(group)
+                for i, gw in enumerate(members):
                     if group[gw.id].id != gw.id or gw.id not in group:
+                        agree = False
+                # lookups by gateway object: exactly the members are "in" the group, and a member is found as itself
+                # (also when a gateway that has exited and a live one carry the same id)
+                for g in list(allgws):
+                    ismember = any(g is m for m in members)
+                    if (g in group) != ismember or (ismember and group[g] is not g):
                         agree = False
             except Exception:
                 pass  # the group changed under the snapshot: not an observation of disagreement
@@ -76,23 +89,39 @@ def run_group(program, chooser, line_level=("allocate_id", "_register", "makegat
 
         def worker(name, ops):
             mine = []
+            gone = []
             for op in ops:
-                if op[0] == "make":
+                if op[0] in ("make", "make_fail"):
+                    if op[0] == "make_fail":
+                        failing.add(name)
                     spec = XSpec("popen" + (f"//id={op[1]}" if op[1] else ""))
                     snap("call", "makegateway", name, op[1], "", op[1] is None)
                     try:
                         gw = group.makegateway(spec)
                         mine.append(gw)
+                        allgws.append(gw)
                         snap("ret", "makegateway", name, gw.id, "ok", op[1] is None)
                     except BaseException as e:  # noqa: BLE001
                         if type(e).__name__ == "SimAbort":
                             raise
-                        snap("ret", "makegateway", name, spec.id or op[1], type(e).__name__, op[1] is None)
+                        failing.discard(name)
+                        snap("ret", "makegateway", name, spec.id or op[1], "Injected" if "injected" in str(e) else type(e).__name__, op[1] is None)
                 elif op[0] == "exit" and mine:
                     gw = mine.pop(0)
+                    gone.append(gw)
                     snap("call", "exit", name, gw.id, "", False)
                     gw.exit()
                     snap("ret", "exit", name, gw.id, "ok", False)
+                elif op[0] == "reexit" and gone:  # exit() of a gateway that has exited already is a no-op
+                    gw = gone[0]
+                    snap("call", "exit", name, gw.id, "", False)
+                    try:
+                        gw.exit()
+                        snap("ret", "exit", name, gw.id, "ok", False)
+                    except BaseException as e:  # noqa: BLE001
+                        if type(e).__name__ == "SimAbort":
+                            raise
+                        snap("ret", "exit", name, gw.id, type(e).__name__, False)
 
         for name, ops in program["threads"]:
             s.spawn(name, worker, (name, ops))
